@@ -251,6 +251,27 @@ PROPS["C15"] = {
     },
 }
 
+PROPS["C16"] = {
+    "builds": ["rel"],
+    "timeout": 3 * 3600,
+    "rule": ("every candidate BCP 47 calendar identifier (21; the 19 the crate accepts are the calendars under test) x ISO days: every day of the ISO years around each era boundary and epoch "
+             "(-1..2, 7..9, 77..79, 283..285, 621..623, 1867..1869, 1911..1913, 1925..1927, 1988..1990, 2018..2020, -544..-542, -3762..-3759, -5494..-5491, -2637..-2635, "
+             "-2333..-2331), every day of the modern period (quick 1990..2040, thorough 1800..2200) and every 13th/29th day of the surrounding centuries, 40 days at both limits, seeded "
+             "random days of the whole range; the astronomical calendars (chinese, dangi, islamic, islamic-umalqura) get the modern centuries and a handful of far dates because the "
+             "calendrical library needs milliseconds per far-away date. Per (calendar, day): all fields read through PlainDate::with_calendar; ISO date unchanged (and back through "
+             "iso8601); structural invariants; successor relation against the previous ISO day; rebuild through PlainDate::from_partial from year+monthCode+day, year+month+day, "
+             "year+month+monthCode+day, era+eraYear+monthCode+day and every alias of the reported era, under reject and constrain; identifiers in upper and mixed case through "
+             "from_str/from_utf8 with the canonical identifier reported. non-trivial = month, year or era boundary between consecutive days; distinct by (calendar, day)"),
+    "assumptions": ["the ISO date is the oracle: no calendar arithmetic is re-implemented; whether a calendar's year numbering is the conventional one is not judged",
+                    "era aliases come from the intl-era-monthcode proposal; an alias the crate does not recognise is counted (undecided), not judged",
+                    "release build only: the chk build trips debug assertions inside the calendrical dependency for far-away Chinese/Dangi/Islamic dates (panics are C03's subject)"],
+    "manifest": {
+        "technique": "runtime monitoring: ISO round-trip and successor-relation oracle over observed calendar fields for every accepted calendar on boundary-dense and random days",
+        "text": "For every calendar the crate accepts, the fields observed for an ISO day are checked to describe that day: the ISO date is unchanged by with_calendar, structural bounds hold, the next ISO day is the calendar successor, and PlainDate::from_partial rebuilds the same ISO date from each combination of the reported fields (including every era alias). Days are dense around era boundaries, leap months and year ends. Holds on the executions generated.",
+        "note": "Trusted: refmodel::civil. Listed known findings come from the calendrical dependency (observational Islamic calendars reporting day 0, far-away astronomical dates).",
+    },
+}
+
 
 NOT_CLAIMED = {}
 
